@@ -60,6 +60,9 @@ def run(ctx):
     _marker_protocol(ctx, variant)
     source_to_code_protocol(ctx, 'C16.R3')
 
+    # ---- R5 ----------------------------------------------------------------------
+    _loader_details(ctx, 'C16.R5')
+
 
 def _marker_protocol(ctx, variant):
     """R4 by interpretation: the beartype cache-path function called the way the import machinery calls it."""
@@ -195,8 +198,15 @@ def loader_protocol(ctx, RULE_PATCH, RULE_PUB):
         F.faithful_try = True
         for excluded in (False, True):
             for conf in ('CONF', None):
-                for outcome in ('returns', 'raises'):
+                for outcome in ('returns', 'raises', 'returns-while-another-import-is-patched'):
                     ext, slf, state = _Ext(), _Self(), _State()
+                    overlapped = outcome.startswith('returns-while')
+                    if overlapped:
+                        # a hooked import of another thread is in flight: its variant is installed when this one starts
+                        if not (conf and not excluded):
+                            continue
+                        ext.cache_from_source = 'the-variant-installed-by-another-thread'
+                        outcome = 'returns'
                     olds = [(LOADER, n, F.patch_global(LOADER, n, ext)) for n in ext_names]
                     olds += [(LOADER, n, F.patch_global(LOADER, n, _Regex(excluded))) for n in regexes]
                     olds.append(('beartype.claw._clawstate', 'claw_state', F.patch_global('beartype.claw._clawstate', 'claw_state', state)))
@@ -231,7 +241,8 @@ def loader_protocol(ctx, RULE_PATCH, RULE_PUB):
                         for mod, n, old in olds:
                             F.patch_global(mod, n, old)
                     hooked = (not excluded) and conf is not None
-                    tag = f'excluded={excluded}:conf={"registered" if conf else "none"}:standard-loader-{outcome}'
+                    tag = f'excluded={excluded}:conf={"registered" if conf else "none"}:standard-loader-{outcome}' + (
+                        ':overlapping-hooked-import' if overlapped else '')
                     where = lm.where(fn.node)
                     ok_call = len(calls) == 1 and calls[0]['name'] == 'pkg.mod'
                     ob(RULE_PATCH, f'get_code:delegates-once:{tag}', where,
@@ -265,7 +276,8 @@ def loader_protocol(ctx, RULE_PATCH, RULE_PUB):
                                'a module that is not hooked is compiled untransformed: no configuration on the loader',
                                c['self_conf'] is None and slf._module_conf is None, f'self._module_conf is {slf._module_conf!r}')
                     ob(RULE_PATCH, f'get_code:restored-afterwards:{tag}', where,
-                           'after get_code (returning or raising) the cache-path function is the library\'s own again',
+                           'after get_code (returning or raising) the cache-path function is the library\'s own again — whatever was '
+                           'installed when it began (two overlapping hooked imports must not leave the patch behind)',
                            is_original(ext.cache_from_source), f'cache_from_source is left as {ext.cache_from_source!r}')
     finally:
         F.faithful_try = False
@@ -388,3 +400,52 @@ def source_to_code_protocol(ctx, RULE):
         F.stubs.update(saved)
         F.ext_stubs.clear()
         F.ext_stubs.update(saved_ext)
+
+
+def _loader_details(ctx, RULE):
+    """The loader-details permutation of the beartype path hook, interpreted: only the source loader is replaced, in place."""
+    from sa.fold import ClassVal, FuncVal, Sym, _Abort, _Raise, _call_function
+    from . import _gen
+    F = _gen.engines(ctx)[0].f
+    Q = 'beartype.claw._importlib._clawimpfilefinder'
+    mm = ctx.repo.mod(Q)
+    # by role: the function of the finder module that builds tuples around BeartypeSourceFileLoader
+    cands = [v for n, v in F.module_env(Q).items() if isinstance(v, FuncVal) and v.module == Q and any(
+        isinstance(x, ast.Name) and x.id == 'BeartypeSourceFileLoader' for x in ast.walk(v.node)) and any(
+        isinstance(x, ast.Name) and x.id == 'SOURCE_SUFFIXES' for x in ast.walk(v.node))]
+    def iterates_param(v):
+        ps = [a.arg for a in v.node.args.args]
+        its = [x.iter for x in ast.walk(v.node) if isinstance(x, (ast.For, ast.comprehension))]
+        return len(ps) == 1 and any(isinstance(i, ast.Name) and i.id == ps[0] for i in its)
+    cands = [v for v in cands if iterates_param(v)]
+    ctx.require(len(cands) == 1, f'anchor vanished: the loader-details permutation of the path hook ({[c.qualname for c in cands]})')
+    fn = cands[0]
+    ctx.rule(RULE, 'the file finder of the path hook keeps CPython\'s loader order — extension modules, then source, then '
+             'sourceless bytecode — and replaces only the source loader: interpreted on (extension, source, sourceless) '
+             'and on orders with the source entry first / last, the result has the same length and order, the source '
+             'entry carries BeartypeSourceFileLoader with the same suffixes, every other entry is untouched (a sourceless '
+             '.pyc next to a .py must not shadow the source of a hooked module)')
+    SRC = ['.py']
+    saved_g = F.patch_global(Q, 'SOURCE_SUFFIXES', SRC)
+    bsl = F.module_env(Q).get('BeartypeSourceFileLoader')
+    try:
+        orders = {'extension,source,sourceless': ['ext', 'src', 'pyc'], 'source,extension,sourceless': ['src', 'ext', 'pyc'],
+                  'extension,sourceless,source': ['ext', 'pyc', 'src']}
+        for oname, order in orders.items():
+            items = {'ext': ('ExtensionFileLoader', ['.so']), 'src': ('SourceFileLoader', SRC), 'pyc': ('SourcelessFileLoader', ['.pyc'])}
+            details = tuple(items[k] for k in order)
+            try:
+                out = _call_function(F, fn, [details], {}, 1)
+            except (_Abort, _Raise) as ex:
+                ctx.require(False, f'cannot interpret {fn.qual}: {ex}')
+            ok = isinstance(out, tuple) and len(out) == len(details)
+            if ok:
+                for got, k in zip(out, order):
+                    if k == 'src':
+                        ok = ok and isinstance(got, tuple) and got[0] is bsl and got[1] == SRC
+                    else:
+                        ok = ok and got is items[k] or (ok and tuple(got) == items[k])
+            ctx.ob(RULE, f'loader-details:{oname}', mm.where(fn.node),
+                   'same order, only the source loader replaced by the beartype source loader', ok, f'{details!r} evaluates to {out!r}')
+    finally:
+        F.patch_global(Q, 'SOURCE_SUFFIXES', saved_g)
